@@ -159,7 +159,8 @@ Record same_tokens {A1 G1 D1 E1 A2 G2 D2 E2}
   st_term : term_is_eof (s_term _ _ _ _ s1) = term_is_eof (s_term _ _ _ _ s2);
   st_lp : s_lp _ _ _ _ s1 = s_lp _ _ _ _ s2;
   st_ln : s_ln _ _ _ _ s1 = s_ln _ _ _ _ s2;
-  st_started : s_started _ _ _ _ s1 = s_started _ _ _ _ s2
+  st_started : s_started _ _ _ _ s1 = s_started _ _ _ _ s2;
+  st_depth : s_depth _ _ _ _ s1 = s_depth _ _ _ _ s2
 }.
 
 Fixpoint elems_R_total {A1 G1 A2 G2} (l1 : list (selem A1 G1)) (l2 : list (selem A2 G2))
@@ -179,8 +180,8 @@ Lemma same_tokens_R {A1 G1 D1 E1 A2 G2 D2 E2}
   same_tokens s1 s2 ->
   pstate_R A1 A2 total G1 G2 total D1 D2 total E1 E2 total s1 s2.
 Proof.
-  intros [Hc Hr Hm Ht Hlp Hln Hs].
-  destruct s1 as [c1 r1 m1 t1 p1 lp1 ln1 d1 st1], s2 as [c2 r2 m2 t2 p2 lp2 ln2 d2 st2].
+  intros [Hc Hr Hm Ht Hlp Hln Hs Hd].
+  destruct s1 as [c1 r1 m1 t1 p1 lp1 ln1 d1 st1 dp1], s2 as [c2 r2 m2 t2 p2 lp2 ln2 d2 st2 dp2].
   simpl in *. subst. constructor; try exact I.
   - destruct c1 as [[a t]|], c2 as [[b t']|]; simpl in Hc; try discriminate.
     + injection Hc as ->. constructor. constructor; [exact I|apply token_R_refl].
@@ -191,6 +192,7 @@ Proof.
   - apply nat_R_refl.
   - apply nat_R_refl.
   - apply bool_R_refl.
+  - apply nat_R_refl.
 Qed.
 
 (* any two operation records are related by the total relation *)
